@@ -36,16 +36,25 @@ func (schemas Schemas) Locate(pkg string) (*Schema, bool) {
 }
 
 func (schemas Schemas) ResolveToType(def Type) Type {
-	if !def.IsRef() {
-		return def
+	// references already followed, to protect against circular aliases
+	// (`A: B`, `B: A`), which would otherwise be followed forever.
+	visited := make(map[string]struct{})
+
+	for def.IsRef() {
+		if _, seen := visited[def.AsRef().String()]; seen {
+			return def
+		}
+		visited[def.AsRef().String()] = struct{}{}
+
+		resolved, found := schemas.LocateObjectByRef(def.AsRef())
+		if !found {
+			return def
+		}
+
+		def = resolved.Type
 	}
 
-	resolved, found := schemas.LocateObjectByRef(def.AsRef())
-	if !found {
-		return def
-	}
-
-	return schemas.ResolveToType(resolved.Type)
+	return def
 }
 
 func (schemas Schemas) LocateObject(pkg string, name string) (Object, bool) {
@@ -196,16 +205,24 @@ func (schema *Schema) HasObject(name string) bool {
 }
 
 func (schema *Schema) Resolve(typeDef Type) (Type, bool) {
-	if !typeDef.IsRef() {
-		return typeDef, true
+	// references already followed, to protect against circular aliases.
+	visited := make(map[string]struct{})
+
+	for typeDef.IsRef() {
+		if _, seen := visited[typeDef.AsRef().ReferredType]; seen {
+			return Type{}, false
+		}
+		visited[typeDef.AsRef().ReferredType] = struct{}{}
+
+		referredObj, found := schema.LocateObject(typeDef.AsRef().ReferredType)
+		if !found {
+			return Type{}, false
+		}
+
+		typeDef = referredObj.Type
 	}
 
-	referredObj, found := schema.LocateObject(typeDef.AsRef().ReferredType)
-	if !found {
-		return Type{}, false
-	}
-
-	return schema.Resolve(referredObj.Type)
+	return typeDef, true
 }
 
 type SchemaMeta struct {
